@@ -208,7 +208,7 @@ func (x *mpExec) apply(letter string) string {
 		if !x.guard("ReceiveTx", func() { err = x.mp.ReceiveTx(gtypes.Tx(raw)) }) {
 			return "dead"
 		}
-			if x.isHeld(nm) {
+		if x.isHeld(nm) {
 			if err == nil {
 				x.find("Mempool.ReceiveTx", "exact-duplicate-accepted", "opaque", "ReceiveTx("+nm+") returned nil although the pool holds exactly this tx")
 			}
